@@ -1013,6 +1013,47 @@ func bigFrameStreams(r *report, g *G, bounded bool) {
 	}
 }
 
+// bigLastFrame: two small frames, then a frame above 64 KiB that ends the stream, through
+// readers that hand out the last bytes together with io.EOF or less than asked for: three
+// packets, then io.EOF.
+func bigLastFrame(r *report, g *G) {
+	for i := 0; i < 4; i++ {
+		var frame []byte
+		if i%2 == 0 {
+			frame = g.bigPublish()
+		} else {
+			body := append([]byte{0, 9, 0}, bytesRepeat(byte(g.pick(3)), 65537+g.pick(3000))...)
+			frame = append(append([]byte{0x90}, vbEnc(uint64(len(body)))...), body...)
+		}
+		pre := []byte{0xc0, 0, 0x40, 2, 0, 7}
+		stream := append(append([]byte{}, pre...), frame...)
+		alone := readOnce(oneChunk(frame))
+		c := fmt.Sprintf("R 4 c000400200 07%s... (two small frames, then a %d-byte frame that ends the stream)", hexs(frame[:8]), len(frame))
+		cp := func() []byte { return append([]byte{}, stream...) }
+		for _, nr := range []namedReader{
+			{"iotest.DataErr", iotest.DataErrReader(bytes.NewReader(cp()))},
+			{"last bytes with io.EOF", scriptOf(stream, []int{3, len(stream) - 3 - 4000, 4000}, false, 1)},
+			{"iotest.Half", iotest.HalfReader(bytes.NewReader(cp()))},
+			{"bufio over DataErr", bufio.NewReaderSize(iotest.DataErrReader(bytes.NewReader(cp())), 4096)},
+			{"iotest.DataErr over Half", iotest.DataErrReader(iotest.HalfReader(bytes.NewReader(cp())))},
+			{"bytes.Buffer", bytes.NewBuffer(cp())},
+		} {
+			o1 := readNative(nr.r, stream[:8])
+			o2 := readNative(nr.r, stream[:8])
+			o3 := readNative(nr.r, stream[:8])
+			o4 := readNative(nr.r, stream[:8])
+			if o1.kind != 12 || o2.kind != 4 {
+				r.fail("sequence-result", c, nr.name+": the small frames read as "+trunc(o1.verdict())+" and "+trunc(o2.verdict()))
+			} else if o3.verdict() != alone.verdict() {
+				r.fail("sequence-result", c, nr.name+": the last frame reads as "+trunc(o3.verdict())+", alone "+trunc(alone.verdict()))
+			} else if o4.kind >= 0 || !errors.Is(o4.e, io.EOF) {
+				r.fail("sequence-end", c, nr.name+": after the last frame "+trunc(o4.verdict()))
+			}
+			r.eval("big-frame-last", true, c)
+		}
+	}
+}
+
 func bytesRepeat(b byte, n int) []byte {
 	out := make([]byte, n)
 	for i := range out {
@@ -1195,6 +1236,7 @@ func oracleC06(r *report, g *G, n int, single string) {
 		checkSequenceBytes(r, g, all, "")
 	}
 	bigFrameStreams(r, g, false)
+	bigLastFrame(r, g)
 	strayStreams(r, g, n/20+10)
 	r.sample(map[string]string{"stream": "9002000a c000 + trailing", "expect": "SUBACK then PINGREQ, 4 and 2 bytes consumed"})
 }
@@ -1715,6 +1757,64 @@ func oracleC16(r *report, g *G, n int, single string) {
 				r.fail("dispatch-publish-flags", c, fmt.Sprintf("dup=%v retain=%v qos=%d", p.Duplicate(), p.Retain(), p.QoS()))
 			}
 		}
+		// the packet keeps those bits whatever it is asked next: printed, dumped, written to a
+		// writer that fails at once and to one that fails after a few bytes
+		if b>>4 != 0 && len(f) < 5000 {
+			func() {
+				defer func() { recover() }()
+				_ = o.p.String()
+				mq.Dump(io.Discard, o.p)
+				o.p.WriteTo(&scriptWriter{err: injectedErr(3)})
+				o.p.WriteTo(&scriptWriter{mode: 'S', k: 1 + len(f)/2, err: injectedErr(4)})
+				o.p.WriteTo(&scriptWriter{mode: 'S', k: 1, err: io.ErrShortWrite})
+			}()
+			if fx, ok := mq.VerifFixed(o.p); !ok || fx != b {
+				r.fail("dispatch-fixed", c, fmt.Sprintf("after String, Dump and failed writes the first byte is %02x", fx))
+			}
+			if out := frameOf(o.p); len(out) == 0 || out[0] != b {
+				r.fail("dispatch-rewrite", c, "after String, Dump and failed writes the first byte written is "+trunc(hexs(out)))
+			}
+			if pub, ok := o.p.(*mq.Publish); ok {
+				if pub.Duplicate() != (b&8 != 0) || pub.Retain() != (b&1 != 0) || pub.QoS() != uint8((b>>1)&3) {
+					r.fail("dispatch-publish-flags", c, fmt.Sprintf("after failed writes dup=%v retain=%v qos=%d", pub.Duplicate(), pub.Retain(), pub.QoS()))
+				}
+			}
+		}
+		// ... and whatever the program does with that packet, the same frame read again is
+		// dispatched and flagged as before (no packet is handed out twice)
+		if len(f) < 5000 {
+			func() {
+				defer func() { recover() }()
+				switch q := o.p.(type) {
+				case *mq.Publish:
+					q.SetQoS((q.QoS() + 1) % 3)
+					q.SetRetain(!q.Retain())
+					q.SetDuplicate(!q.Duplicate())
+					q.SetTopicName("changed/by/the/program")
+				case *mq.PubAck:
+					q.SetPacketID(q.PacketID() + 1)
+				case *mq.ConnAck:
+					q.SetSessionPresent(!q.SessionPresent())
+				case *mq.Connect:
+					q.SetCleanStart(!q.CleanStart())
+					q.SetUsername("changed")
+				case *mq.Subscribe:
+					q.SetPacketID(q.PacketID() + 1)
+				case *mq.Disconnect:
+					q.SetReasonCode(q.ReasonCode() + 1)
+				case *mq.Auth:
+					q.SetReasonCode(q.ReasonCode() + 1)
+				}
+			}()
+			o2 := readOnce(oneChunk(f))
+			if o2.verdict() != o.verdict() {
+				r.fail("dispatch-repeat", c, "after the program changed the first packet the same frame reads as "+trunc(o2.verdict())+", before "+trunc(o.verdict()))
+			} else if o2.kind > 0 {
+				if fx, ok := mq.VerifFixed(o2.p); !ok || fx != b {
+					r.fail("dispatch-repeat", c, fmt.Sprintf("second read: fixed %02x", fx))
+				}
+			}
+		}
 		r.eval(fmt.Sprintf("type%d", b>>4), b&15 != 0, c)
 	}
 	if single != "" {
@@ -1854,6 +1954,24 @@ func roundTrip(r *report, k int, cs []string) {
 	// the same frame through readers that deliver it in pieces (C01 is about ReadPacket on any
 	// reader): two halves with the error-free style, and - for short frames - one byte per Read
 	// with zero-length reads in between and io.EOF together with the last byte
+	if o.kind == k && o.snap == want && len(f) > 1<<16 {
+		// frames above 64 KiB through readers that deliver less than asked for: halves, and
+		// pieces of a few thousand bytes with the last one together with io.EOF
+		var pieces []int
+		for rest, sz := len(f), 3000+len(f)%4096; rest > 0; rest -= sz {
+			if sz > rest {
+				sz = rest
+			}
+			pieces = append(pieces, sz)
+		}
+		for di, parts := range [][]int{{len(f) / 2, len(f) - len(f)/2}, pieces} {
+			o2 := readOnce(scriptOf(f, parts, false, di))
+			if o2.panic || o2.kind != k || o2.snap != want || o2.enc != o.enc || o2.got != len(f) {
+				r.fail("roundtrip-fragmented", c, fmt.Sprintf("delivery %d (pieces of %d bytes) of a frame of %d bytes: %s", di, parts[0], len(f), trunc(o2.verdict())))
+				break
+			}
+		}
+	}
 	if o.kind == k && o.snap == want && len(f) >= 2 && len(f) <= 1<<16 {
 		deliveries := [][]int{{len(f) / 2, len(f) - len(f)/2}, {1, 1, len(f) - 2}}
 		if len(f) <= 600 {
@@ -1889,7 +2007,7 @@ type kcs struct {
 	cs []string
 }
 
-var roOps = []string{"~String", "~Dump", "~WriteTo", "~WellFormed", "~Acc", "~FailWrite", "~String", "~WriteTo"}
+var roOps = []string{"~String", "~Dump", "~WriteTo", "~WellFormed", "~Acc", "~FailWrite", "~String", "~WriteTo", "~PartWrite", "~PartWrite:3"}
 
 // interleaveRO inserts read-only operations into a history (at least one of
 // them before the last call): what a packet was asked earlier must not matter.
@@ -1924,9 +2042,50 @@ func stripRO(cs []string) []string {
 	var out []string
 	for _, c := range cs {
 		switch c {
-		case "~String", "~Dump", "~WriteTo", "~WellFormed", "~Acc", "~FailWrite":
+		case "~String", "~Dump", "~WriteTo", "~WellFormed", "~Acc", "~FailWrite", "~PartWrite", "~PartWrite:3":
 		default:
 			out = append(out, c)
+		}
+	}
+	return out
+}
+
+// rewriteCases: a packet that is written (or printed) in the middle of its history and
+// changed afterwards - a field made shorter, made longer, a list element or user property
+// added: what the earlier write computed must not show in the later one.
+func rewriteCases(g *G) []kcs {
+	var out []kcs
+	mids := []string{"~WriteTo", "~String", "~WriteTo", "~PartWrite:3", "~Dump"}
+	for _, k := range allKinds {
+		base := baseCalls(k)
+		for _, st := range settersOf(k) {
+			long, short := hexs(g.bytesN(20+g.pick(60))), hexs(g.bytesN(1+g.pick(5)))
+			mid := mids[g.pick(len(mids))]
+			var a, b string
+			switch st.typ {
+			case "str", "bin":
+				a, b = st.name+":"+long, st.name+":"+short
+			case "up":
+				a, b = st.name+":6b:"+long, st.name+":6b32:"+short
+			case "filter":
+				a, b = st.name+":"+long+":1", st.name+":"+short+":2"
+			case "ufilter":
+				a, b = st.name+":"+long, st.name+":"+short
+			case "u16", "u32", "u8", "rc", "bool":
+				a, b = st.name+":1", st.name+":0"
+			default:
+				continue
+			}
+			cat := func(xs ...[]string) []string {
+				var o []string
+				for _, x := range xs {
+					o = append(o, x...)
+				}
+				return o
+			}
+			out = append(out, kcs{k, cat(base, []string{a, mid, b})})
+			out = append(out, kcs{k, cat(base, []string{b, mid, a})})
+			out = append(out, kcs{k, cat(base, []string{mid, a})})
 		}
 	}
 	return out
@@ -2100,9 +2259,18 @@ func oracleC01(r *report, g *G, n int, single string) {
 	for i := 0; i < n; i++ {
 		k := g.kind()
 		g.big = g.chance(8)
-		roundTrip(r, k, g.domainCalls(k))
+		cs := g.domainCalls(k)
+		if g.chance(25) {
+			cs = g.interleaveRO(cs) // written or printed before it was complete
+		}
+		roundTrip(r, k, cs)
 	}
 	g.big = true
+	g.domain = true
+	for _, rc := range rewriteCases(g) {
+		roundTrip(r, rc.k, domainFix(rc.k, rc.cs))
+	}
+	g.domain = false
 	// boundary lengths of every string/binary field, and sizes that move the remaining length form
 	for _, l := range []int{0, 1, 127, 128, 16383, 16384, 65534, 65535} {
 		s := hexs(g.bytesN(l))
@@ -2546,8 +2714,14 @@ func (s *specPkt) apply(tok string) {
 		name, arg = tok[:i], tok[i+1:]
 	}
 	switch name {
-	case "~String", "~Dump", "~WriteTo", "~FailWrite", "~WellFormed", "~Acc", "~Reuse":
+	case "~String", "~Dump", "~WriteTo", "~FailWrite", "~PartWrite", "~WellFormed", "~Acc", "~Reuse":
 		return // read-only operations, and what the caller does with its own slices, change nothing
+	case "~FilterSet":
+		parts := strings.Split(arg, ":")
+		if i, _ := strconv.Atoi(parts[0]); i < len(s.filters) {
+			s.filters[i] = "L[S" + parts[1] + ",N" + parts[2] + "]"
+		}
+		return
 	case "~Spread":
 		for _, it := range strings.Split(arg, ",") {
 			s.apply("AddFilter:" + it)
@@ -2818,6 +2992,89 @@ func oracleC12(r *report, g *G, n int, single string) {
 		check(k, cs)
 		inDomain = false
 	}
+	// setters on packets that came off the wire: a packet decoded from a frame and the packet
+	// the frame was written from are the same packet (C01) - the same further calls must
+	// leave them the same, accessor for accessor and byte for byte
+	twin := func(k int, hist, more []string) {
+		c := "H " + strconv.Itoa(k) + sp(hist) + " | decoded, then" + sp(more)
+		defer func() {
+			if e := recover(); e != nil {
+				r.fail("setter-panic", c, fmt.Sprint(e))
+			}
+		}()
+		built := build(k, hist)
+		o := readOnce(oneChunk(frameOf(built)))
+		if o.kind != k || o.snap != snapshot(built) {
+			return
+		}
+		if g.chance(50) {
+			_ = o.p.String()
+		}
+		for i, call := range more {
+			applyCall(built, call)
+			applyCall(o.p, call)
+			if a, b := snapshot(o.p), snapshot(built); a != b {
+				r.fail("setter-on-decoded", c, fmt.Sprintf("after step %d (%s) the decoded packet has %s, the built one %s", i+1, trunc(call), trunc(a), trunc(b)))
+				return
+			}
+		}
+		if a, b := hexs(frameOf(o.p)), hexs(frameOf(built)); a != b {
+			r.fail("setter-on-decoded", c, "frames differ: decoded "+trunc(a)+" built "+trunc(b))
+		}
+		r.eval(fmt.Sprintf("decoded-type%d", k), len(more) >= 1, c)
+	}
+	for i := 0; i < n/3+20; i++ {
+		k := g.kind()
+		g.big = false
+		hist := domainFix(k, g.domainCalls(k))
+		g.domain = true
+		more := g.calls(k, 1+g.pick(4))
+		g.domain = false
+		twin(k, hist, more)
+	}
+	g.big = true
+	// a CONNECT may carry the user-name or password flag with a zero-length value: after a
+	// setter call the flag follows the value set, whatever the wire said before
+	for _, fl := range []byte{0x80, 0x40, 0xc0, 0x82, 0xc2} {
+		body := []byte{0, 4, 'M', 'Q', 'T', 'T', 5, fl, 0, 0, 0, 0, 1, 'c'}
+		if fl&0x80 != 0 {
+			body = append(body, 0, 0)
+		}
+		if fl&0x40 != 0 {
+			body = append(body, 0, 0)
+		}
+		frame := append([]byte{0x10, byte(len(body))}, body...)
+		for _, calls := range [][]string{{"SetUsername:-"}, {"SetPassword:-"}, {"SetPassword:"}, {"SetUsername:-", "SetPassword:-"},
+			{"SetUsername:75", "SetUsername:-"}, {"SetPassword:70", "SetPassword:-"}, {"SetClientID:64", "SetUsername:-", "SetPassword:-"}} {
+			c := "R 1 " + hexs(frame) + " | decoded, then" + sp(calls)
+			o := readOnce(oneChunk(frame))
+			conn, ok := o.p.(*mq.Connect)
+			if o.kind != 1 || !ok {
+				r.fail("setter-on-decoded", c, "a CONNECT with flag and empty value is rejected: "+trunc(o.verdict()))
+				continue
+			}
+			func() {
+				defer func() {
+					if e := recover(); e != nil {
+						r.fail("setter-panic", c, fmt.Sprint(e))
+					}
+				}()
+				touchedU, touchedP := false, false
+				for _, call := range calls {
+					applyCall(conn, call)
+					touchedU = touchedU || strings.HasPrefix(call, "SetUsername:")
+					touchedP = touchedP || strings.HasPrefix(call, "SetPassword:")
+				}
+				if touchedU && conn.HasFlag(mq.UsernameFlag) != (conn.Username() != "") {
+					r.fail("setter-on-decoded", c, fmt.Sprintf("user name %q but user-name flag %v", conn.Username(), conn.HasFlag(mq.UsernameFlag)))
+				}
+				if touchedP && conn.HasFlag(mq.PasswordFlag) != (len(conn.Password()) > 0) {
+					r.fail("setter-on-decoded", c, fmt.Sprintf("password of %d bytes but password flag %v", len(conn.Password()), conn.HasFlag(mq.PasswordFlag)))
+				}
+			}()
+			r.eval("decoded-connect-flags", true, c)
+		}
+	}
 	// a user property added alone, then several in one call, then one more (any type that has them)
 	for _, k := range allKinds {
 		if hasSetter(k, "AddUserProp") {
@@ -3028,6 +3285,28 @@ func oracleC17(r *report, g *G, n int, single string) {
 		k := []int{3, 8}[g.pick(2)]
 		check(k, g.calls(k, 1+g.pick(8)))
 	}
+	// a filter changed in place through the slice Filters() returned, after the packet was
+	// judged or printed: good to bad, bad to good, at every position
+	for nf := 1; nf <= 3; nf++ {
+		for at := 0; at < nf; at++ {
+			for _, ro := range []string{"~WellFormed", "~String", "~Dump"} {
+				for _, to := range []string{"-:1", "61:3", "61:7", "62:2", "-:3"} {
+					for _, from := range []string{"61:1", "-:0", "63:3"} {
+						cs := []string{"SetPacketID:5"}
+						for j := 0; j < nf; j++ {
+							if j == at {
+								cs = append(cs, "AddFilter:"+from)
+							} else {
+								cs = append(cs, "AddFilter:66:0")
+							}
+						}
+						cs = append(cs, ro, fmt.Sprintf("~FilterSet:%d:%s", at, to))
+						check(8, cs)
+					}
+				}
+			}
+		}
+	}
 	// QoS and packet identifier set in every order, QoS lowered and raised again
 	for _, pid := range []string{"1", "7", "65535"} {
 		for q1 := 0; q1 <= 4; q1++ {
@@ -3225,13 +3504,46 @@ func oracleC18(r *report, g *G, n int, single string) {
 	r.sample(map[string]string{"pair": "user ab / zz, password 1 / 9, otherwise equal", "check": "String and Dump byte-identical, built and decoded"})
 }
 
+// writers a program may hand to Dump: one that can be locked from outside, one that locks
+// itself in Write (and can be locked from outside too), one that fails
+type lockableBuf struct {
+	sync.Mutex
+	bytes.Buffer
+}
+type selfLockingWriter struct {
+	mu sync.Mutex
+	n  int
+}
+
+func (w *selfLockingWriter) Lock()   { w.mu.Lock() }
+func (w *selfLockingWriter) Unlock() { w.mu.Unlock() }
+func (w *selfLockingWriter) Write(p []byte) (int, error) {
+	w.mu.Lock()
+	defer w.mu.Unlock()
+	w.n += len(p)
+	return len(p), nil
+}
+
+type failingWriter struct{}
+
+func (failingWriter) Write(p []byte) (int, error) { return 0, io.ErrClosedPipe }
+
 func oracleC19(r *report, g *G, n int, single string) {
 	render := func(p mq.Packet, c string) {
-		res, ok := runWithWatchdog(func() string {
+		res, ok := runWithWatchdog(func() (res string) {
 			_, _, pk := renderBoth(p)
 			if pk {
 				return "PANIC"
 			}
+			defer func() {
+				if e := recover(); e != nil {
+					res = "PANIC"
+				}
+			}()
+			mq.Dump(&lockableBuf{}, p)
+			mq.Dump(&selfLockingWriter{}, p)
+			mq.Dump(failingWriter{}, p)
+			mq.Dump(io.Discard, p)
 			return ""
 		})
 		if !ok {
@@ -3656,6 +3968,9 @@ func oracleC02(r *report, g *G, n int, single string) {
 				}
 			}
 			cs = domainFix(k, cs)
+			if g.chance(25) {
+				cs = g.interleaveRO(cs) // written or printed before it was complete
+			}
 			if hasSetter(k, "AddUserProp") && g.chance(20) {
 				var items []string
 				g.domain = true
@@ -3668,6 +3983,11 @@ func oracleC02(r *report, g *G, n int, single string) {
 			}
 			add(k, cs)
 		}
+		g.domain = true
+		for _, rc := range rewriteCases(g) {
+			add(rc.k, domainFix(rc.k, rc.cs))
+		}
+		g.domain = false
 		// just outside the round-trip domain, where the frame must still be valid MQTT although
 		// not every value set can be carried: a will that has a topic alias, subscription
 		// identifiers, a packet identifier or DUP; a packet identifier on a QoS 0 PUBLISH; a will
@@ -4219,6 +4539,113 @@ func oracleC14(r *report, g *G, n int, single string) {
 			}
 			r.eval("pool-step", true, fmt.Sprintf("pool%d-%d-%s", round, step, desc))
 		}
+	}
+	// frames read one after the other through readers that buffer: every packet returned
+	// stays what it was while the reader refills and the program recycles its own buffer
+	for i := 0; i < n/15+12; i++ {
+		var frames [][]byte
+		var stream []byte
+		for len(frames) < 3+g.pick(6) {
+			var f []byte
+			if g.chance(60) {
+				f = frameOf(build(3, []string{"SetTopicName:" + hexs(g.nonEmpty()), "SetPayload:" + hexs(g.bytesN(1+g.pick(900))),
+					"SetCorrelationData:" + hexs(g.bytesN(g.pick(40)))}))
+			} else {
+				f = g.validFrame()
+			}
+			if len(f) > 3000 {
+				continue
+			}
+			if o := readOnce(oneChunk(f)); o.kind < 0 {
+				continue
+			}
+			frames = append(frames, f)
+			stream = append(stream, f...)
+		}
+		src := append([]byte{}, stream...)
+		var under io.Reader = bytes.NewReader(src)
+		switch g.pick(3) {
+		case 0:
+			under = iotest.HalfReader(under)
+		case 1:
+			under = iotest.OneByteReader(under)
+		}
+		var rd io.Reader
+		name := ""
+		switch i % 6 {
+		case 0:
+			rd, name = bufio.NewReaderSize(under, 16), "bufio(16)"
+		case 1:
+			rd, name = bufio.NewReaderSize(under, 64), "bufio(64)"
+		case 2:
+			rd, name = bufio.NewReaderSize(under, 512), "bufio(512)"
+		case 3:
+			rd, name = bufio.NewReader(under), "bufio(4096)"
+		case 4:
+			rd, name = bytes.NewBuffer(src), "bytes.Buffer"
+		default:
+			rd, name = under, "unbuffered"
+		}
+		c := fmt.Sprintf("R %d %s through %s", len(frames), trunc(hexs(stream)), name)
+		var got []mq.Packet
+		var snaps, encs []string
+		for range frames {
+			o := readNative(rd, stream)
+			if o.kind < 0 {
+				break
+			}
+			got = append(got, o.p)
+			snaps = append(snaps, o.snap)
+			encs = append(encs, o.enc)
+			for j := range got {
+				if sj := snapshot(got[j]); sj != snaps[j] {
+					r.fail("aliases-input", c, fmt.Sprintf("packet #%d changed after packet #%d was read: before %s after %s", j, len(got)-1, trunc(snaps[j]), trunc(sj)))
+					snaps[j] = sj
+				}
+			}
+		}
+		for k := range src { // the program recycles the buffer it read from
+			src[k] = ^src[k]
+		}
+		for j := range got {
+			if sj, ej := snapshot(got[j]), encS(got[j]); sj != snaps[j] || ej != encs[j] {
+				r.fail("aliases-input", c, fmt.Sprintf("packet #%d changed after the program overwrote its read buffer: before %s after %s", j, trunc(snaps[j]), trunc(sj)))
+			}
+			if j < len(frames) && snaps[j] != snapshotOfFrame(frames[j]) {
+				r.fail("decode-depends-on-history", c, fmt.Sprintf("frame #%d in the stream decodes to %s, alone to %s", j, trunc(snaps[j]), trunc(snapshotOfFrame(frames[j]))))
+			}
+		}
+		r.eval("buffered-stream", len(got) >= 2, c)
+	}
+	// a packet the program has changed does not come back from a later decode of the same
+	// frame (no packet is handed out twice), least of all for the frames without a body
+	for _, f := range [][]byte{{0x30, 0}, {0x32, 0}, {0x3b, 0}, {0xc0, 0}, {0xd0, 0}, {0xe0, 0}, {0xf0, 0}, {0x20, 0}, {0x10, 0},
+		{0x40, 2, 0, 1}, {0x62, 2, 0, 1}, {0x30, 3, 0, 1, 't'}, {0xe0, 1, 0x8e}} {
+		c := "R 1 " + hexs(f) + " twice, the first packet changed in between"
+		first := readOnce(oneChunk(f))
+		if first.kind < 0 {
+			continue
+		}
+		func() {
+			defer func() { recover() }()
+			k := kindOf(first.p)
+			g.domain = true
+			for _, call := range g.calls(k, 2+g.pick(3)) {
+				applyCall(first.p, call)
+			}
+			g.domain = false
+			if pub, ok := first.p.(*mq.Publish); ok {
+				pub.SetQoS((pub.QoS() + 1) % 3)
+				pub.SetRetain(!pub.Retain())
+				pub.AddUserProp("changed", "by the program")
+			}
+		}()
+		g.domain = false
+		second := readOnce(oneChunk(f))
+		if second.verdict() != first.verdict() {
+			r.fail("packets-interfere", c, "second decode "+trunc(second.verdict())+", first "+trunc(first.verdict()))
+		}
+		r.eval("decode-twice", true, c)
 	}
 	// twins: two frames that differ in one field only (one of them with the field empty or
 	// absent), sharing small identifiers (topic alias, packet identifier): a decoder that
